@@ -151,6 +151,10 @@ pub fn check_step(ctx: &mut Ctx, s: &Step) -> Result<(), Violation> {
             }
         }
     }
+    // the deprecated editing API as further construction paths (one position in four)
+    if fp(p) % 4 == 0 {
+        super::editapi::check_edits(ctx, super::editapi::Mode::Board, p, b, 3, &case)?;
+    }
     ctx.sample(|| s.case());
     Ok(())
 }
@@ -164,7 +168,7 @@ pub fn run(cfg: &Cfg) -> i32 {
     engine::finish(
         report,
         EvidenceSpec {
-            rule: "cases = positions on golden and generated histories, each examined as reached by make_move_new, by make_move in place, through null_move (and one further move after it), and rebuilt from its own FEN, from an independent standard FEN and from a BoardBuilder. evaluations = positions. Non-trivial = reached incrementally (>= 1 move) with at least one checker or pinned piece; distinct = distinct position fingerprints.".into(),
+            rule: "cases = positions on golden and generated histories, each examined as reached by make_move_new, by make_move in place, through null_move (and one further move after it), through the deprecated editing API (set_piece / clear_square on non-king squares, the six castle-rights mutators; one position in four), and rebuilt from its own FEN, from an independent standard FEN and from a BoardBuilder. evaluations = positions. Non-trivial = reached incrementally (>= 1 move) with at least one checker or pinned piece; distinct = distinct position fingerprints.".into(),
             assumptions: vec!["reference attackers()/pinned_of() walk rays square by square from the definitions".into()],
             trusted_base: vec!["harness/src/refmodel.rs".into(), "proptest 1.11".into()],
             exhaustive: None,
